@@ -286,6 +286,12 @@ def run_session(case: dict) -> dict:
                         raise box["e"]
                     v = box["v"]
                     stats["builds_in_worker_thread"] = stats.get("builds_in_worker_thread", 0) + 1
+                elif op.get("subclass"):
+                    # the user derives from the viewer (e.g. to restyle it); such viewers belong to the same session
+                    if "sub" not in parsers:
+                        parsers["sub"] = type("RestyledViewer", (DecayChainViewer,), {"__slots__": ()})
+                    v = parsers["sub"](chain)
+                    stats["builds_by_a_user_subclass"] = stats.get("builds_by_a_user_subclass", 0) + 1
                 else:
                     v = DecayChainViewer(chain)
                 if op.get("kill_to_string"):
@@ -457,6 +463,7 @@ def gen_session(rng: random.Random, cfg: dict | None = None) -> dict:
     p_dot = cfg.get("p_dot", 0.05)
     p_fail = rng.choice([0.0, 0.15, 0.3])
     p_thread = rng.choice([0.0, 0.0, 0.3])
+    p_sub = rng.choice([0.0, 0.0, 0.25])
     ops = []
 
     def source():
@@ -486,6 +493,8 @@ def gen_session(rng: random.Random, cfg: dict | None = None) -> dict:
             b = {"op": "build", **source()}
             if rng.random() < p_thread:
                 b["thread"] = True
+            elif rng.random() < p_sub:
+                b["subclass"] = True
             if rng.random() < 0.08:
                 b["kill_to_string"] = rng.choice([1, 2, 3, rng.randint(4, 60), rng.randint(4, 400)])
             ops.append(b)
@@ -515,7 +524,7 @@ def candidates(case: dict):
                 yield {**case, "ops": new}
         size //= 2
     for i, op in enumerate(ops):
-        for flag in ("thread", "kill_to_string"):
+        for flag in ("thread", "kill_to_string", "subclass"):
             if op.get(flag):
                 yield {**case, "ops": ops[:i] + [{k: v for k, v in op.items() if k != flag}] + ops[i + 1 :]}
     for i, op in enumerate(ops):
